@@ -148,6 +148,33 @@ def gen(rng, tier, shard, batch):
                 reqs += group(rng, "divr", ty, rng.choice("lrb"), n)
             else:
                 reqs += group(rng, "quant", ty, rng.choice("lrb"), None)
+        # + / - groups whose exact result is +-2^127 or +-(2^127-1) (the asymmetric ends of i128), integer in either
+        # position, Decimal with and without fractional digits
+        for _ in range(10):
+            ty = rng.choice(OP_INT_TYPES)
+            v = G.int_of(rng, ty)
+            sc = rng.choice((0, 1, 2, 9, 18, rng.randrange(0, 19)))
+            w = abs(v) * P10[sc]
+            if w > M:
+                continue
+            for c in (M - w, -(M + 1) + w, (M + 1) - w, -M + w, M - w + 1, -(M + 1) + w - 1, M + 1 - w - 1):
+                if abs(c) > M:
+                    continue
+                op = rng.choice(("add", "sub", "cadd", "csub"))
+                dtok, itok, ftok = G.fD(c, sc), G.fI(ty, v), G.fD(v, 0)
+                reqs += ["%s * %s %s" % (op, dtok, ftok), "%s * %s %s" % (op, dtok, itok),
+                         "%s * %s %s" % (op, ftok, dtok), "%s * %s %s" % (op, itok, dtok)]
+        # comparison groups at the alignment threshold: i = +-(floor(M / 10^n) + d), Decimal = i * 10^n (+-1) @ n
+        for _ in range(8):
+            n_ = rng.randrange(1, 19)
+            for d_ in (-1, 0, 1):
+                i_ = (M // P10[n_] + d_) * rng.choice((1, -1))
+                for e_ in (0, 1, -1):
+                    c = i_ * P10[n_] + e_
+                    if abs(c) > M:
+                        c = rng.choice((M, -M))
+                    reqs += ["cmpall * %s %s" % (G.fD(c, n_), G.fD(i_, 0)), "cmpall * %s i128:%d" % (G.fD(c, n_), i_),
+                             "cmpall * %s %s" % (G.fD(i_, 0), G.fD(c, n_)), "cmpall * i128:%d %s" % (i_, G.fD(c, n_))]
         # comparison groups with i128 values whose scaling wraps onto the Decimal's coefficient
         for _ in range(6):
             k = rng.randrange(1, 19)
